@@ -41,8 +41,18 @@ POOLS = {
         dict(alpha=dict(nv=2, maxl=2, maxar=2, classes=("D", "U"), raw=False, bad=False), keys="quick", fresh=True),
         dict(alpha=dict(nv=3, maxl=1, maxar=2, classes=("D", "O"), raw=True, bad=False, explicit_ops=False),
              keys="quick", fresh=False),
+        # universe pool: caching on from the start; links are only created; membership of the world's own
+        # universe changes from either side; ("trav", i) runs every traversal and search within that
+        # universe from vertex i (so whatever they cache is part of the state); the state invariant asks
+        # the battery within that universe too
+        dict(alpha=dict(nv=3, maxl=2, maxar=2, classes=("D",), raw=False, bad=False, none_ends=False,
+                        explicit_ops=False, setters=False, nu=1, membership=True), keys="quick", fresh=False,
+             universe=True),
     ],
     "thorough": [
+        dict(alpha=dict(nv=3, maxl=2, maxar=2, classes=("D", "U"), raw=False, bad=False, none_ends=False,
+                        explicit_ops=False, setters=False, nu=1, membership=True), keys="quick", fresh=False,
+             universe=True),
         dict(alpha=dict(nv=2, maxl=2, maxar=2, classes=("D", "U"), raw=True, bad=False), keys="quick",
              fresh=True, builders=True),
         dict(alpha=dict(nv=3, maxl=2, maxar=2, classes=("D", "U"), raw=False, bad=False, none_ends=False),
@@ -68,9 +78,15 @@ def all_universe(w):
     return (Universe(vertices=list(w.v)),)
 
 
+def own_universe(w):
+    # only the world's own universe: building another one here would itself be a membership change
+    return (w.u[0],)
+
+
 class Sys:
     def __init__(self, spec):
         self.spec = spec
+        self.unis = own_universe if spec.get("universe") else all_universe
         if "pumped" in spec:
             self.alpha = Pumped(spec["pumped"], extra_links=1)
             self.keys = LADDER_KEYS
@@ -81,6 +97,11 @@ class Sys:
     def initial(self):
         if "pumped" in self.spec:
             w = self.alpha.initial()
+            w.flag = True
+            Vertex.NEIGHBOR_CACHING = True
+            return w
+        if self.spec.get("universe"):
+            w = SWorld(self.alpha.nv, 1)
             w.flag = True
             Vertex.NEIGHBOR_CACHING = True
             return w
@@ -95,6 +116,13 @@ class Sys:
                     out.append(("queryseq", v, K))
             out += [op for op in self.alpha.ops(w) if op[0] not in ("addv", "ulf", "link_d") or op[0] == "ulf"]
             out.append(("flag", not w.flag))
+            return out
+        if self.spec.get("universe"):
+            out = [op for op in self.alpha.ops(w)
+                   if op[0] not in ("uadd", "urem", "a2u", "rfu")
+                   or (op[2] if op[0] in ("uadd", "urem") else op[1]) < self.alpha.nv]
+            members = {w.vid(x) for x in w.u[0].vertices}
+            out += [("trav", i) for i in range(len(w.v)) if i in members]
             return out
         out = list(self.alpha.ops(w))
         for i in range(len(w.v)):
@@ -118,6 +146,19 @@ class Sys:
             for (d, u, f) in self.keys:
                 try:
                     helpers.neighbors(v, DIRS[d], UNKS[u], NB_FILTERS[f])
+                except Exception:  # noqa: BLE001
+                    pass
+            return ("ret", None)
+        if k == "trav":
+            uni, v = w.u[0], w.v[op[1]]
+            for fn in battery.TRAV.values():
+                try:
+                    fn(uni, v, **battery.TRAV_KW)      # the settings the battery asks with
+                except Exception:  # noqa: BLE001
+                    pass
+            for fn in battery.SEARCH.values():
+                try:
+                    fn(uni, v, "i", 99)
                 except Exception:  # noqa: BLE001
                     pass
             return ("ret", None)
@@ -185,7 +226,7 @@ class Sys:
 
     def state_check(self, pre, op, post, obs):
         hist = self.current_history
-        diff = battery.differential(post, self.keys, all_universe, fresh=lambda: engine_h.build(self, hist))
+        diff = battery.differential(post, self.keys, self.unis, fresh=lambda: engine_h.build(self, hist))
         if not diff:
             return []
         return [(fingerprint(pre, op, diff), {"op": list(op), "differs": [list(map(repr, d)) for d in diff[:4]],
@@ -193,7 +234,7 @@ class Sys:
 
     def nontrivial(self, pre, op, post, obs):
         # a mutation while some memo holds an entry
-        return op[0] not in ("warm", "query", "queryseq", "flag", "pickle_rt") and any(memo_is_warm(v) for v in pre.v)
+        return op[0] not in ("warm", "query", "queryseq", "flag", "pickle_rt", "trav") and any(memo_is_warm(v) for v in pre.v)
 
 
 def fingerprint(pre, op, diff):
@@ -221,7 +262,7 @@ def replay(rec, verbose=False):
         r = s.apply(w, op)
         if verbose:
             print(f"  {op} -> {r}   flag={w.flag} links={observe(w)['lv']}")
-    diff = battery.differential(w, s.keys, all_universe, fresh=lambda: engine_h.build(s, hist))
+    diff = battery.differential(w, s.keys, s.unis, fresh=lambda: engine_h.build(s, hist))
     if verbose:
         for d in diff[:6]:
             print("  differs:", d[0], " with caching:", d[1], " recomputed:", d[2])
